@@ -7,6 +7,7 @@
 #include <etl/string_view.hpp>
 
 #include <string>
+#include <new>
 #include <string_view>
 #include <type_traits>
 
@@ -92,13 +93,14 @@ struct Env {
     using E2 = etl::basic_inplace_string<Ch, N2>;
 
     vf::Chooser& ch;
-    Str m;   // model
-    E e;     // subject
+    Str m;              // model
+    vf::Buf<E> ebuf{1}; // the subject lives alone in an exact-size heap block: an overrun of the object itself is an ASan report
+    E& e;               // subject
     char subj[64];
     char stcls[32];
     bool diverged = false;
 
-    Env(vf::Chooser& c, Str const& start) : ch(c), m(start), e(mk(start))
+    Env(vf::Chooser& c, Str const& start) : ch(c), m(start), e(*::new (static_cast<void*>(ebuf.data())) E(mk(start)))
     {
         std::snprintf(subj, sizeof subj, "inplace_string<%s,%zu>", VF_CHAR_NAME, N);
         restate();
@@ -637,13 +639,15 @@ struct Env {
         std::uint64_t h  = vf::mix(which + 300, vf::fnv_bytes(t.data(), t.size() * sizeof(Ch)));
         std::size_t room = N - m.size();
         std::size_t L    = m.size();
+        bool clamped     = false;
         switch (which) {
-        case 0: { // insert(index,count,ch)
+        case 0: { // insert(index,count,ch) - like the appends it is built on, it clamps to the capacity (then only the invariants are checked)
             std::size_t idx = draw_pos(L);
-            std::size_t cnt = draw_pos(room);
+            std::size_t cnt = draw_pos(room + 2);
             Ch c            = draw_char();
-            CRUMB("insert(index,count,ch)", sit(poscls(idx, L), cnt == room ? "fills" : "fits"), "m=%s index=%zu count=%zu ch=%u", show(m).c_str(), idx, cnt,
-                (unsigned)c);
+            clamped         = cnt > room;
+            CRUMB("insert(index,count,ch)", sit(poscls(idx, L), clamped ? "clamped" : (cnt == room ? "fills" : "fits")), "m=%s index=%zu count=%zu ch=%u",
+                show(m).c_str(), idx, cnt, (unsigned)c);
             e.insert(idx, cnt, c);
             m.insert(idx, cnt, c);
             COVER("insert(index,count,ch)", vf::mix(idx, vf::mix(cnt, (unsigned)c)));
@@ -658,12 +662,12 @@ struct Env {
             COVER("insert(index,ptr)", vf::mix(h, idx));
             break;
         }
-        case 2: { // insert(index,ptr,count)
+        case 2: { // insert(index,ptr,count) (clamps like append)
             std::size_t cnt = draw_pos(t.size());
-            if (cnt > room) { return; }
+            clamped         = cnt > room;
             std::size_t idx = draw_pos(L);
-            CRUMB("insert(index,ptr,count)", sit(poscls(idx, L), cnt == room ? "fills" : "fits"), "m=%s index=%zu s=%s count=%zu", show(m).c_str(), idx,
-                show(t).c_str(), cnt);
+            CRUMB("insert(index,ptr,count)", sit(poscls(idx, L), clamped ? "clamped" : (cnt == room ? "fills" : "fits")), "m=%s index=%zu s=%s count=%zu",
+                show(m).c_str(), idx, show(t).c_str(), cnt);
             e.insert(idx, a.ptr(), cnt);
             m.insert(idx, a.ptr(), cnt);
             COVER("insert(index,ptr,count)", vf::mix(h, vf::mix(idx, cnt)));
@@ -805,7 +809,7 @@ struct Env {
             break;
         }
         }
-        check_state();
+        check_state(!clamped);
         a.z.check("argument string");
     }
 
